@@ -14,7 +14,8 @@ def half_obligations(ctx, ck, quals, want_sums=(), want_divs=(), sym_funcs=()):
     """records obligations; returns dict of counts"""
     counts = dict(products=0, psi_calls=0, sums=0, divisions=0, selections=0)
     for q in quals:
-        f = ctx.func(q)
+        # private helpers inlined: the terms of a sum may be computed in a helper
+        f = ctx.flat(q)
         t = HalfTagger(ctx, f).run()
         if t.unknown_selections:
             ck.info('unrecognised_selections:' + q, [norm(e) for e in t.unknown_selections][:5])
